@@ -102,6 +102,8 @@ def _worker_batch(cid, root_seed, tier, indices, run_cap_s, want_samples):
         "sim_time": 0.0,
     }
     cnt = out["counters"]
+    _t0 = time.monotonic()
+    _c0 = time.process_time()
     for idx in indices:
         try:
             case, res = _one_run(mod, cid, root_seed, tier, idx, run_cap_s)
@@ -132,6 +134,9 @@ def _worker_batch(cid, root_seed, tier, indices, run_cap_s, want_samples):
                     e["example"] = {"run": idx, "detail": v.get("detail")}
             elif len(out["violations"]) < 3:
                 out["violations"].append({"run": idx, "case": res.get("case", case), "violation": v})
+    out["pid"] = os.getpid()
+    out["busy_s"] = time.monotonic() - _t0
+    out["cpu_s"] = time.process_time() - _c0
     return out
 
 
@@ -283,11 +288,13 @@ def run_check(cid: str, tier: str, seed: int, runs=None, wall=None, workers=None
     import warnings
 
     warnings.filterwarnings("ignore", message=".*os.fork\\(\\) was called.*")
-    if hasattr(mod, "preimport"):
+    if hasattr(mod, "preimport") and not os.environ.get("VERIF_NO_PREIMPORT"):
         mod.preimport()
         n_threads = len(os.listdir("/proc/self/task"))
         if n_threads != 1:
             raise HarnessError(f"preimport started threads ({n_threads}); refusing to fork")
+    if os.environ.get("VERIF_DEBUG"):
+        print(f"[debug] preimport done at {time.monotonic() - t0:.1f}s", file=sys.stderr)
     pool = ProcessPoolExecutor(max_workers=workers, mp_context=get_context("fork"),
                                initializer=_worker_init, initargs=(cid,))
     faulthandler.dump_traceback_later(wall_s + 900, exit=True)
@@ -308,8 +315,12 @@ def run_check(cid: str, tier: str, seed: int, runs=None, wall=None, workers=None
             done, pending = wait(pending, timeout=5, return_when=FIRST_COMPLETED)
             for fut in done:
                 out = fut.result()
+                if os.environ.get("VERIF_DEBUG"):
+                    print(f"[debug] t={time.monotonic() - t0:.1f} batch n={out['n']} busy={out.get('busy_s', 0):.1f} pid={out.get('pid')}", file=sys.stderr)
                 agg["n"] += out["n"]
                 agg["sim_time"] += out["sim_time"]
+                agg["busy_s"] = agg.get("busy_s", 0.0) + out.get("busy_s", 0.0)
+                agg["cpu_s"] = agg.get("cpu_s", 0.0) + out.get("cpu_s", 0.0)
                 for k, v in out["counters"].items():
                     agg["counters"][k] = agg["counters"].get(k, 0) + v
                 agg["digests"] |= out["digests"]
@@ -327,6 +338,8 @@ def run_check(cid: str, tier: str, seed: int, runs=None, wall=None, workers=None
             if time.monotonic() > hard_deadline:
                 stop = True
         explored_wall = time.monotonic() - t0
+        if os.environ.get("VERIF_DEBUG"):
+            print(f"[debug] explore phase done at {explored_wall:.1f}s", file=sys.stderr)
 
         # ---- known-finding probes: every listed finding is re-demonstrated on each run ------
         probes = {}
@@ -389,6 +402,8 @@ def run_check(cid: str, tier: str, seed: int, runs=None, wall=None, workers=None
         pool.shutdown(wait=False, cancel_futures=True)
 
     wall_total = time.monotonic() - t0
+    if os.environ.get("VERIF_DEBUG"):
+        print(f"[debug] all phases done at {wall_total:.1f}s", file=sys.stderr)
     # ---- evidence ------------------------------------------------------------------------------
     cov = {
         "evaluations": agg["n"],
@@ -403,6 +418,8 @@ def run_check(cid: str, tier: str, seed: int, runs=None, wall=None, workers=None
                   "first_run": 0, "last_run": max(0, next_idx - 1)},
         "runs_per_hour": int(agg["n"] / max(explored_wall, 1e-9) * 3600),
         "workers": workers,
+        "worker_busy_s": round(agg.get("busy_s", 0.0), 1),
+        "worker_cpu_s": round(agg.get("cpu_s", 0.0), 1),
         "simulated_time_units": round(agg["sim_time"], 3),
         "simulated_time_note": getattr(mod, "SIM_TIME_NOTE", ""),
         "counters": dict(sorted(agg["counters"].items())),
